@@ -10,22 +10,24 @@
        mode "zone"    (tiny limits) a, b in ONE zone   minimality of Succ, maximality of Pred *)
 EXTENDS NameUniverse, TLC
 
-CONSTANTS Modes
+CONSTANTS Modes,
+          PairAlpha,   \* alphabet of the pair universe (A10 = the universe run on the implementation)
+          ZAlpha       \* alphabet of the tiny zone of mode "zone"
 VARIABLES mode, stage, a, b, c, p
 vars == <<mode, stage, a, b, c, p>>
 
 (* every legal name of the zone "o." under the (tiny) limits, over ZAlpha *)
-ZAlpha == {0, 1, 64, 65, 90, 91, 97, 122, 123, 254, 255}
+UPair == WithAbs(Rel06(PairAlpha))
 ZOrigin == << <<111>>, <<>> >>
 ZoneNames == {n \in {ZOrigin} \cup {<<x>> \o ZOrigin : x \in UpTo(ZAlpha, MaxLabel)}
                         \cup {<<x, y>> \o ZOrigin : x \in UpTo(ZAlpha, MaxLabel), y \in UpTo(ZAlpha, MaxLabel)} : Valid(n)}
 
-FirstArgs(m) == CASE m = "pair" -> U06
+FirstArgs(m) == CASE m = "pair" -> UPair
                   [] m = "triple" -> V06
                   [] m = "neigh" -> {cs[1] : cs \in NeighbourCases}
                   [] m = "cons" -> ConstructInputs
                   [] m = "zone" -> ZoneNames
-SecondArgs(m, x) == CASE m = "pair" -> U06
+SecondArgs(m, x) == CASE m = "pair" -> UPair
                       [] m = "triple" -> V06
                       [] m = "neigh" -> {cs[2] : cs \in {d \in NeighbourCases : d[1] = x}}
                       [] m = "cons" -> ConstructInputs
@@ -48,7 +50,8 @@ Zone == mode = "zone" /\ stage = 2
 (* C06 laws on pairs *)
 Total        == Pair => Cmp(a, b) \in {-1, 0, 1} /\ Cmp(a, a) = 0
 Antisymmetric == Pair => Cmp(a, b) = -Cmp(b, a)
-EqualIffFold == Pair => ((Cmp(a, b) = 0) <=> SameName(a, b))
+EqualIffFold == Pair => /\ ((Cmp(a, b) = 0) <=> SameName(a, b))
+                        /\ (SameName(a, b) <=> LowerAll(a) = LowerAll(b))
 RelativeFirst == Pair => (~IsAbs(a) /\ IsAbs(b) => Cmp(a, b) < 0 /\ Relation(a, b) = "none" /\ Common(a, b) = 0)
 RelationCoherent ==
     Pair => /\ (IsSub(a, b) <=> Relation(a, b) \in {"subdomain", "equal"})
